@@ -31,7 +31,7 @@ func init() {
 		Run:   c06Run,
 		Kinds: []core.Kind{core.ReplayOf("hyperg", c06Hyper), core.ReplayOf("binom", c06Binom)},
 		Rule: "every hypergeometric (N,K,Draws) with 2<=N<=bound and every binomial N<=bound on P = i/200 (i=0..200), 10^(-j/4) and 1-10^(-j/4) (j=1..48), six non-round values and values within 1e-12 of 0 and 1, and the complete family N in {100,250,500,999,1000}; " +
-			"for each, every integer k from -2 to N+2 and every k+0.5; oracle = exact big.Rat (hypergeometric) / 600-bit big.Float on the exact value of the float P (binomial, cross-checked against big.Rat for N<=12). " +
+			"for each, every integer k from -2 to N+2 and k+{1e-10, 0.5, 1-1e-10, 1-2^-40}; oracle = exact big.Rat (hypergeometric) / 600-bit big.Float on the exact value of the float P (binomial, cross-checked against big.Rat for N<=12). " +
 			"Non-trivial: the support has at least 2 points.",
 		Technique:   "bounded-exhaustive parameter and argument enumeration of the real distributions against exact rational / 600-bit references",
 		Assumptions: []string{"tolerance 1e-10 absolute (statement)", "Mean/Variance compared with the exact moments to 8 ulp", "larger N covered by a complete family instead of random draws"},
@@ -77,7 +77,7 @@ func c06Hyper(c *C06H, r *core.Rec) {
 		m1.Add(m1, ref.Mul(kk, pm))
 		m2.Add(m2, ref.Mul(ref.Mul(kk, kk), pm))
 		wantP, wantC := ref.F(pm), ref.F(cum)
-		for _, off := range []float64{0, 0.5} {
+		for _, off := range []float64{0, 1e-10, 0.5, 1 - 1e-10, 1 - 0x1p-40} { // CDF and PMF are constant on [k, k+1)
 			x := float64(k) + off
 			gp, gc := d.PMF(x), d.CDF(x)
 			calls += 2
@@ -169,7 +169,7 @@ func c06Binom(c *C06B, r *core.Rec) {
 		cum.Add(cum, pm)
 		wantP, _ := pm.Float64()
 		wantC, _ := cum.Float64()
-		for _, off := range []float64{0, 0.5} {
+		for _, off := range []float64{0, 1e-10, 0.5, 1 - 1e-10, 1 - 0x1p-40} { // CDF and PMF are constant on [k, k+1)
 			x := float64(k) + off
 			gp, gc := d.PMF(x), d.CDF(x)
 			calls += 2
